@@ -28,19 +28,7 @@ func init() { drivers["release"] = runRelease }
 
 var kinds = []string{"tcp", "udp", "http", "https", "tcpmux", "stcp", "sudp", "xtcp", "tcpgrp", "httpgrp", "muxgrp"}
 
-// fixed port plan inside the allowed range (a port number has one purpose per case)
-const (
-	pBy    = basePort + 0 // bystander "by"
-	pGroup = basePort + 1 // the tcp group's port
-	pSubj  = basePort + 2 // the subject's own port
-	pBy2   = basePort + 3 // scenario-specific second bystander
-	pX1    = basePort + 4 // extra proxies of the subject's session
-	pX2    = basePort + 5
-	pRival = basePort + 6 // session 1's proxy named "subj" (name taken / add race)
-	pQ1    = basePort + 7 // quota fillers
-	pQ2    = basePort + 8
-	pOut   = basePort + 50 // outside the allowed range
-)
+const pOut = basePort + 50 // outside the allowed range
 
 type scen struct {
 	kind   string
@@ -78,16 +66,15 @@ func endsSession(path string) bool {
 	return path == "drop" || path == "dropearly" || path == "replace" || path == "heartbeat"
 }
 
-// subjectReq: the subject proxy "subj" of a scenario
-func subjectReq(sc scen) preq {
+func needsPort(kind string) bool { return kind == "tcp" || kind == "udp" || kind == "tcpgrp" }
+
+// subjectReq: the subject proxy "subj" of a scenario; port = its explicit remote port (tcp, udp, tcp group)
+func subjectReq(sc scen, port int) preq {
 	q := preq{name: "subj", kind: baseKind(sc.kind), bw: sc.bw}
 	locs := [][]string{nil, {"/x"}, {"/x", "/y"}}[sc.locs%3]
 	switch sc.kind {
 	case "tcp", "udp":
-		q.port = pSubj
-		if sc.port0 {
-			q.port = 0
-		}
+		q.port = port
 	case "http":
 		q.domains = []string{"s1.test", "s2.test"}
 		q.locs = locs
@@ -111,10 +98,7 @@ func subjectReq(sc scen) preq {
 			q.sub = "sub"
 		}
 	case "tcpgrp":
-		q.group, q.gkey, q.port = "g1", "k1", pGroup
-		if sc.port0 {
-			q.port = 0
-		}
+		q.group, q.gkey, q.port = "g1", "k1", port
 	case "httpgrp":
 		q.group, q.gkey, q.domains = "g1", "k1", []string{"g.test"}
 		if sc.locs%3 != 0 {
@@ -132,12 +116,12 @@ func subjectReq(sc scen) preq {
 	return q
 }
 
-func extraReq(i int, kind string) preq {
+func extraReq(w *world, i int, kind string) preq {
 	n := fmt.Sprintf("x%d", i)
 	q := preq{name: n, kind: kind}
 	switch kind {
 	case "tcp":
-		q.port = []int{pX1, pX2}[(i-1)%2]
+		q.port = w.pick()
 	case "http", "https", "tcpmux":
 		q.domains = []string{n + ".test"}
 	}
@@ -150,10 +134,10 @@ type gate struct {
 	release chan struct{}
 }
 
-func installGate(key string) *gate {
+func installGate(at, key string) *gate {
 	g := &gate{reached: make(chan struct{}), release: make(chan struct{})}
 	verifhook.Install(func(point, k string) {
-		if point != "ctl.regproxy.after_run" || k != key {
+		if point != at || k != key {
 			return
 		}
 		if atomic.AddInt32(&g.hits, 1) == 1 {
@@ -166,11 +150,7 @@ func installGate(key string) *gate {
 
 // runScen drives one scenario on w.
 func runScen(w *world, g *hx.Gen, sc scen) {
-	subj := subjectReq(sc)
 	proto := "tcp"
-	if subj.kind == "udp" {
-		proto = "udp"
-	}
 	mustOK := func(code int, key string) bool {
 		if w.broken {
 			return false
@@ -192,12 +172,20 @@ func runScen(w *world, g *hx.Gen, sc scen) {
 	if w.broken {
 		return
 	}
-	by := preq{kind: "tcp", name: "by", port: pBy}
+	by := preq{kind: "tcp", name: "by", port: w.pick()}
 	if !mustOK(w.newProxy(s1, by, npOpts{}), "setup-refused:"+sc.label()) {
 		return
 	}
+	sport := 0
+	if needsPort(sc.kind) && !sc.port0 {
+		sport = w.pick()
+	}
+	subj := subjectReq(sc, sport)
+	if subj.kind == "udp" {
+		proto = "udp"
+	}
 	if sc.grpBy && isGrp(sc.kind) {
-		gby := subjectReq(sc)
+		gby := subj
 		gby.name = "gby"
 		gby.bw = false
 		if !mustOK(w.newProxy(s1, gby, npOpts{}), "setup-refused:"+sc.label()) {
@@ -278,7 +266,7 @@ func runScen(w *world, g *hx.Gen, sc scen) {
 		if len(w.allow) < 6 && xk == "tcp" {
 			xk = "stcp"
 		}
-		if !mustOK(w.newProxy(s2, extraReq(i, xk), npOpts{}), "setup-refused:"+sc.label()) {
+		if !mustOK(w.newProxy(s2, extraReq(w, i, xk), npOpts{}), "setup-refused:"+sc.label()) {
 			return
 		}
 	}
@@ -357,7 +345,7 @@ func runScen(w *world, g *hx.Gen, sc scen) {
 
 	// ---------- registrations that fail, then the corrected one ----------
 	case "f:exists":
-		rival := preq{kind: "tcp", name: "subj", port: pRival}
+		rival := preq{kind: "tcp", name: "subj", port: w.pick()}
 		if !mustOK(w.newProxy(s1, rival, npOpts{}), "setup-refused:"+sc.label()) {
 			return
 		}
@@ -371,16 +359,13 @@ func runScen(w *world, g *hx.Gen, sc scen) {
 	case "f:used":
 		bad := subj
 		if subj.kind == "udp" {
-			by2 := preq{kind: "udp", name: "by2", port: pBy2}
+			by2 := preq{kind: "udp", name: "by2", port: w.pick()}
 			if !mustOK(w.newProxy(s1, by2, npOpts{}), "setup-refused:"+sc.label()) {
 				return
 			}
-			bad.port = pBy2
+			bad.port = by2.port
 		} else {
-			bad.port = pBy
-		}
-		if subj.port == 0 {
-			finalReq.port = map[string]int{"tcp": pSubj, "udp": pSubj, "tcpgrp": pGroup}[sc.kind]
+			bad.port = by.port
 		}
 		iPre := w.last()
 		expect(w.newProxy(s2, bad, npOpts{}), -1)
@@ -400,7 +385,7 @@ func runScen(w *world, g *hx.Gen, sc scen) {
 	case "f:squat":
 		bad := subj
 		if bad.port == 0 {
-			bad.port = map[string]int{"tcp": pSubj, "udp": pSubj, "tcpgrp": pGroup}[sc.kind]
+			bad.port = w.pick()
 		}
 		finalReq = bad
 		if !w.squat(proto, bad.port) {
@@ -507,10 +492,7 @@ func runScen(w *world, g *hx.Gen, sc scen) {
 		}
 	case "f:gport":
 		bad := subj
-		bad.port = pSubj
-		if subj.port == 0 {
-			bad.port = pSubj
-		}
+		bad.port = w.pick()
 		iPre := w.last()
 		expect(w.newProxy(s2, bad, npOpts{}), -7)
 		w.pair(iPre, w.last())
@@ -547,8 +529,8 @@ func runScen(w *world, g *hx.Gen, sc scen) {
 		}
 	case "f:quota":
 		// maxPortsPerClient = 2: two fillers, the subject is the third
-		q1 := preq{kind: "tcp", name: "q1", port: pQ1}
-		q2 := preq{kind: "udp", name: "q2", port: pQ2}
+		q1 := preq{kind: "tcp", name: "q1", port: w.pick()}
+		q2 := preq{kind: "udp", name: "q2", port: w.pick()}
 		if !mustOK(w.newProxy(s2, q1, npOpts{}), "setup-refused:"+sc.label()) ||
 			!mustOK(w.newProxy(s2, q2, npOpts{}), "setup-refused:"+sc.label()) {
 			return
@@ -564,7 +546,7 @@ func runScen(w *world, g *hx.Gen, sc scen) {
 		// session 2's registration is held between Run and Add while session 1 takes the name
 		iPre := w.last()
 		s := w.peers[s2]
-		gt := installGate("subj")
+		gt := installGate("ctl.regproxy.after_run", "subj")
 		released := false
 		rel := func() {
 			if !released {
@@ -603,7 +585,7 @@ func runScen(w *world, g *hx.Gen, sc scen) {
 			}
 			w.rec.count(fmt.Sprintf("twin:%s:%d", sc.kind, respCode(twin, resp)))
 		}
-		rival := preq{kind: "tcp", name: "subj", port: pRival}
+		rival := preq{kind: "tcp", name: "subj", port: w.pick()}
 		resp1, err := w.peers[s1].p.NewProxy(rival.toMsg())
 		if err != nil {
 			w.harnessFail("no reply to the rival registration")
@@ -632,13 +614,70 @@ func runScen(w *world, g *hx.Gen, sc scen) {
 		if !mustOK(w.newProxy(s2, finalReq, npOpts{}), "reregister-refused:"+sc.label()) {
 			return
 		}
+	case "f:existrace":
+		// NOT in the default matrix (-extra existrace): session 2's registration is held between Exist and
+		// Run while session 1 registers the same kind and name completely; session 2's Run then meets the
+		// occupied listener table (-14 / -15).  The model's registration is atomic and answers EExists
+		// for any serialisation, so this scenario is a known disagreement by construction.
+		iPre := w.last()
+		s := w.peers[s2]
+		gt := installGate("ctl.regproxy.after_exist", "subj")
+		released := false
+		rel := func() {
+			if !released {
+				released = true
+				close(gt.release)
+			}
+		}
+		defer verifhook.Install(nil)
+		defer rel()
+		if err := s.p.Send(subj.toMsg()); err != nil {
+			w.harnessFail("cannot send NewProxy")
+			return
+		}
+		select {
+		case <-gt.reached:
+		case <-time.After(3 * time.Second):
+			w.harnessFail("the gated registration did not reach ctl.regproxy.after_exist")
+			return
+		}
+		twin := preq{kind: subj.kind, name: "subj"}
+		resp1, err := w.peers[s1].p.NewProxy(twin.toMsg())
+		if err != nil {
+			w.harnessFail("no reply to the twin registration")
+			return
+		}
+		rel()
+		m, err := s.p.RecvUntil(5*time.Second, func(m msg.Message) bool { _, ok := m.(*msg.NewProxyResp); return ok })
+		if err != nil {
+			w.harnessFail("no reply to the gated registration")
+			return
+		}
+		verifhook.Install(nil)
+		code2 := respCode(subj, m.(*msg.NewProxyResp))
+		want := -14
+		if sc.kind == "xtcp" {
+			want = -15
+		}
+		expect(code2, want)
+		if !w.sync(s) || !w.sync(w.peers[s1]) {
+			w.harnessFail("ping round trip failed")
+			return
+		}
+		w.recordNew(s1, twin, respCode(twin, resp1), resp1.Error, true, noObs)
+		w.recordNew(s2, subj, code2, m.(*msg.NewProxyResp).Error, true, w.observe())
+		w.closeProxy(s1, "subj")
+		w.pair(iPre, w.last())
+		if !mustOK(w.newProxy(s2, finalReq, npOpts{}), "reregister-refused:"+sc.label()) {
+			return
+		}
 	}
 	if w.broken {
 		return
 	}
 
 	// ---------- the bystander still works; then everything goes ----------
-	if !w.checkTCPBystander(s1, "by", pBy) {
+	if !w.checkTCPBystander(s1, "by", by.port) {
 		w.fail("bystander-dead:"+sc.kind, "a user connection to the bystander's port is no longer handed to the bystander ("+sc.path+")")
 	}
 	w.closeProxy(subjSess, "subj")
@@ -654,8 +693,14 @@ func runScen(w *world, g *hx.Gen, sc scen) {
 
 // ---------- the scenario matrix ----------
 
+// withExistRace: -extra existrace adds the scenario the model cannot follow (see "f:existrace")
+var withExistRace = false
+
 func pathsFor(kind string) []string {
 	ps := []string{"close", "drop", "dropearly", "replace", "heartbeat", "f:exists", "f:addrace"}
+	if withExistRace && (kind == "stcp" || kind == "sudp" || kind == "xtcp") {
+		ps = append(ps, "f:existrace")
+	}
 	switch kind {
 	case "tcp", "udp":
 		ps = append(ps, "f:used", "f:notallowed", "f:squat", "f:noavail", "f:listen", "f:quota")
@@ -674,11 +719,11 @@ func pathsFor(kind string) []string {
 }
 
 var allPaths = []string{"close", "drop", "dropearly", "replace", "heartbeat", "f:exists", "f:used", "f:notallowed", "f:squat",
-	"f:noavail", "f:listen", "f:dom2", "f:loc2", "f:first", "f:gkey", "f:gport", "f:gdom", "f:g2dom", "f:grepeat", "f:quota", "f:addrace"}
+	"f:noavail", "f:listen", "f:dom2", "f:loc2", "f:first", "f:gkey", "f:gport", "f:gdom", "f:g2dom", "f:grepeat", "f:quota", "f:addrace", "f:existrace"}
 
 // normalise: settle the flags a path or kind forces
 func normalise(sc scen) scen {
-	if endsSession(sc.path) || sc.path == "f:exists" || sc.path == "f:addrace" || sc.path == "f:quota" {
+	if endsSession(sc.path) || sc.path == "f:exists" || sc.path == "f:addrace" || sc.path == "f:existrace" || sc.path == "f:quota" {
 		sc.own = true
 	}
 	switch sc.path {
@@ -689,6 +734,9 @@ func normalise(sc scen) scen {
 	}
 	if !isGrp(sc.kind) {
 		sc.grpBy = false
+	}
+	if sc.kind == "udp" {
+		sc.own = true // a closed udp proxy may go on asking its session for work connections for a while
 	}
 	if sc.path == "dropearly" {
 		sc.port0 = false
@@ -828,6 +876,15 @@ func runCase(seed int64, ci int, sc scen, addr string, rec *recorder) caseResult
 func runRelease(cfg *hx.RunCfg) error {
 	hx.Quiet()
 	rec := newRecorder()
+	only := ""
+	for _, x := range strings.Split(cfg.Extra, ",") {
+		switch {
+		case x == "existrace":
+			withExistRace = true
+		case strings.HasPrefix(x, "only="):
+			only = strings.TrimPrefix(x, "only=")
+		}
+	}
 	scs := matrix(cfg.Seed, cfg.Tier)
 	gr := hx.NewGen(cfg.Seed*104723 + 10)
 	for len(scs) < cfg.N {
@@ -837,10 +894,10 @@ func runRelease(cfg *hx.RunCfg) error {
 		scs = scs[:cfg.N]
 	}
 	// -extra only=<kind>:<path> replays the scenarios of one matrix cell (debugging aid)
-	if strings.HasPrefix(cfg.Extra, "only=") {
+	if only != "" {
 		sel := []scen{}
 		for _, sc := range append(matrix(cfg.Seed, "thorough"), scs...) {
-			if sc.label() == strings.TrimPrefix(cfg.Extra, "only=") && len(sel) < cfg.N {
+			if sc.label() == only && len(sel) < cfg.N {
 				sel = append(sel, sc)
 			}
 		}
@@ -857,7 +914,7 @@ func runRelease(cfg *hx.RunCfg) error {
 		}
 	}
 	for i, sc := range scs {
-		if sc.path != "heartbeat" && sc.path != "f:addrace" {
+		if sc.path != "heartbeat" && sc.path != "f:addrace" && sc.path != "f:existrace" {
 			order = append(order, i)
 		}
 	}
@@ -880,7 +937,7 @@ func runRelease(cfg *hx.RunCfg) error {
 	close(jobs)
 	wg.Wait()
 	for i, sc := range scs {
-		if sc.path == "f:addrace" {
+		if sc.path == "f:addrace" || sc.path == "f:existrace" {
 			results[i] = runCase(cfg.Seed, i, sc, "127.0.10.1", rec)
 		}
 	}
